@@ -81,7 +81,7 @@ prop(
     assumptions=["math.Cos and math/rand are oracles: their values are taken from the run, not modelled",
                  "rand.Seed seeds the global source deterministically (Go < 1.24 semantics; go1.23.5 here)",
                  "float64 = IEEE-754 binary64 (see C10 stage f64)",
-                 "the exact-layer theorems assume admissible steps (run_ok); admissibility of the implementation's steps is checked per run by jit_ok, not proved"],
+                 "C13_f64_admissible covers jitter percentages that are positive normal floats below 100 and magnitudes below 2^49; outside that range admissibility is only checked per run by jit_ok"],
 )
 
 WORKERS_ACCESS = ("internal/workers", "workers_access.go")
